@@ -252,6 +252,9 @@ def run(ctx: Ctx):
             ctx.ob("C08.d", f"{cname}._step:{key}:updated-selection", uses_new, sl.where,
                    f"{key}' is computed from the updated selection" if uses_new else f"{key}' is computed from the selection *before* this step (one step late)",
                    construct=f"{sl.fi.qualname}:{key}:stale-selection")
+        if cname == "FLPEnv":
+            from .C03 import flp_masked_min
+            flp_masked_min(ctx, "C08.d", "FLPEnv._step:distances", sl.cell("distances"), sl.where)
         if cname == "MCPEnv":
             # direction of the bookkeeping: `membership` shows the REMAINING sets (chosen enters negatively), and the item weights
             # shown are those still uncovered: weights' = weights * (1 - covered) with covered an indicator (count > 0)
